@@ -333,6 +333,149 @@ def concRun (locked : Bool) (m : Mgr) (sched : List Bool) : InfoRes :=
 
 def infoLocked : Bool := CLUSTER_INFO_UNLOCKED.isEmpty
 
+/-! ### path history of the CAM low-frequency container (`_get_path_history`, `_update_send_state`) -/
+
+/-- one stored history entry as seen from the current report: the exact values of the doubles
+`(h_lat - lat) * 10000000`, `(h_lon - lon) * 10000000` and `(now_ms - h_time_ms) / 10` -/
+structure HOff where
+  dlat : Rat
+  dlon : Rat
+  dt : Rat
+
+structure PathPoint where
+  dlat : Int
+  dlon : Int
+  dalt : Int
+  dtime : Int
+  deriving Repr, DecidableEq
+
+/-- the interval of ROUNDED offsets the loop accepts (regenerated: the complement of its `break` guards) -/
+structure PhGuard where
+  latLo : Int
+  latHi : Int
+  lonLo : Int
+  lonHi : Int
+  deriving Repr, DecidableEq
+
+def phGuard : PhGuard := ⟨PH_LAT_LO, PH_LAT_HI, PH_LON_LO, PH_LON_HI⟩
+
+/-- `round(...)`, `round(...)`, the literal deltaAltitude, `max(lo, min(hi, round(...)))` -/
+def pathPointOf (h : HOff) : PathPoint :=
+  ⟨pyRound h.dlat, pyRound h.dlon, PH_DALT, max PH_DT_LO (min PH_DT_HI (pyRound h.dt))⟩
+
+def PhGuard.accepts (g : PhGuard) (p : PathPoint) : Bool :=
+  decide (g.latLo ≤ p.dlat) && decide (p.dlat ≤ g.latHi) && decide (g.lonLo ≤ p.dlon) && decide (p.dlon ≤ g.lonHi)
+
+/-- the loop of `_get_path_history` over the stored entries NEWEST FIRST: leave at the first entry outside the guard,
+and after the append that makes `len(result) >= cap`; `n` = points already emitted -/
+def phLoop (g : PhGuard) (cap : Int) (n : Nat) : List HOff → List PathPoint
+  | [] => []
+  | h :: rest =>
+    if !g.accepts (pathPointOf h) then []
+    else if (n : Int) + 1 ≥ cap then [pathPointOf h]
+    else pathPointOf h :: phLoop g cap (n + 1) rest
+
+def pathHistory (hs : List HOff) : List PathPoint := phLoop phGuard PH_CAP 0 hs
+
+/-- asn1tools does not range-check: a point survives the encoder iff every component lies inside its constraint -/
+def PathPoint.encodable (p : PathPoint) : Bool :=
+  decide (DeltaLatitude_lo ≤ p.dlat) && decide (p.dlat ≤ DeltaLatitude_hi) &&
+  decide (DeltaLongitude_lo ≤ p.dlon) && decide (p.dlon ≤ DeltaLongitude_hi) &&
+  decide (DeltaAltitude_lo ≤ p.dalt) && decide (p.dalt ≤ DeltaAltitude_hi) &&
+  decide (PathDeltaTime_lo ≤ p.dtime) && decide (p.dtime ≤ PathDeltaTime_hi)
+
+def pathEncodable (ps : List PathPoint) : Bool := ps.all PathPoint.encodable && decide ((ps.length : Int) ≤ Path_size_hi)
+
+/-- send state of the CAM transmission management as far as the path history is concerned -/
+structure PhTx where
+  camCount : Nat := 0
+  lastLf : Option Int := none
+  /-- `len(self._path_history)` -/
+  histLen : Nat := 0
+  /-- one entry per CAM handed to BTP, newest first: the pathHistory of its low-frequency container, if included -/
+  out : List (Option (List PathPoint)) := []
+  skipped : Nat := 0
+  deriving Repr, DecidableEq
+
+def PhTx.lfDue (s : PhTx) (now : Int) : Bool :=
+  s.camCount == 0 || (match s.lastLf with | none => true | some t => decide (now - t ≥ (T_GEN_CAM_LF_MS : Int)))
+
+/-- one generation attempt (`_generate_and_send_cam`) at `now`.  `pos`: the report carries lat and lon; `offs`: the
+stored entries seen from the reported position, newest first (whatever the double arithmetic produced).  A path the
+encoder cannot represent makes the encoding fail or produce an undecodable CAM: the exception is swallowed
+(Annex B.2.5) and NO state is updated; otherwise the CAM is sent and `_update_send_state` runs -/
+def phAttempt (g : PhGuard) (cap : Int) (s : PhTx) (now : Int) (pos : Bool) (offs : List HOff) : PhTx :=
+  let lf := s.lfDue now
+  let path := if pos then phLoop g cap 0 (offs.take s.histLen) else []
+  if lf && !(pathEncodable path) then { s with skipped := s.skipped + 1 }
+  else { camCount := s.camCount + 1, lastLf := if lf then some now else s.lastLf,
+         histLen := if pos then min (s.histLen + 1) PH_STORE_CAP.toNat else s.histLen,
+         out := (if lf then some path else none) :: s.out, skipped := s.skipped }
+
+structure PhTick where
+  now : Int
+  pos : Bool
+  offs : List HOff
+
+def phRun (g : PhGuard) (cap : Int) (ticks : List PhTick) : PhTx :=
+  ticks.foldl (fun s t => phAttempt g cap s t.now t.pos t.offs) {}
+
+/-! ### the VAM between construction and BTP: clustering state x LDM adapter -/
+inductive Vbs where
+  | idle | standalone | leader | passive
+  deriving Repr, DecidableEq
+
+inductive JoinSub where
+  | none | notify | waiting | cancelled | failed | joined
+  deriving Repr, DecidableEq
+
+/-- what the three methods the transmission path calls read of the clustering manager -/
+structure ClState where
+  st : Vbs
+  cluster : Bool        -- `_cluster is not None`
+  breakup : Bool        -- `_cluster.breakup_started is not None`
+  join : JoinSub
+  leaveNotify : Bool    -- `_leave_substate is NOTIFY`
+  deriving Repr, DecidableEq
+
+/-- `should_transmit_vam` (none: no clustering manager configured) -/
+def shouldTransmit : Option ClState → Bool
+  | none => true
+  | some c => match c.st with
+    | .idle => false
+    | .passive => c.leaveNotify
+    | _ => true
+
+/-- `get_cluster_information_container` is not None -/
+def infoDue : Option ClState → Bool
+  | none => false
+  | some c => c.st == .leader && c.cluster
+
+/-- `get_cluster_operation_container` is not None -/
+def opDue : Option ClState → Bool
+  | none => false
+  | some c => match c.st with
+    | .idle => false
+    | .standalone => c.join == .notify || c.join == .cancelled || c.join == .failed || c.leaveNotify
+    | .passive => c.leaveNotify
+    | .leader => c.cluster && c.breakup
+
+inductive SendRes where
+  | silent                                   -- no VAM (VRU-IDLE, VRU-PASSIVE)
+  | sent (info op ldmFed : Bool)             -- handed to BTP, with / without the cluster containers; LDM fed
+  | fail                                     -- the callback raises, nothing reaches BTP
+  deriving Repr, DecidableEq
+
+/-- `send_next_vam`.  With an LDM adapter the message is snapshotted and fed to the LDM BEFORE it is encoded; a deep
+copy (`deep = 1`) cannot rebuild the CHOICE value of the cluster information container unless its class supports it
+(`copyable`); an exception there is fatal for the VAM unless the block is guarded by a `try` (`guarded = 1`) -/
+def vamSend (deep guarded : Nat) (copyable : Bool) (c : Option ClState) (ldm : Bool) : SendRes :=
+  if !shouldTransmit c then .silent
+  else
+    let snapFails := ldm && deep == 1 && infoDue c && !copyable
+    if snapFails then (if guarded == 1 then .sent (infoDue c) (opDue c) false else .fail)
+    else .sent (infoDue c) (opDue c) ldm
+
 /-! ### UPER of constrained whole numbers as asn1tools produces it (fixed part of a SEQUENCE of constrained INTEGERs) -/
 /-- the encoder's accumulator: all bits so far as one natural number, and their count -/
 structure Bits where
